@@ -48,6 +48,30 @@ def mc(tier, name="backend"):
     info["unrepaired_machine_violates"] = "EmittedOk"
     return pipes, info
 
+def sort_mc(tier):
+    """SortMC: the sort-inference machine of spec/SortInfer.tla (postprocess::infer_sorts transcribed) on every compiled query of
+    the bound; the post-processed query must satisfy the Verdict against the Meaning of the query.  The machine as found
+    (SortMC_unrepaired.cfg, before the repair of F113) must fail."""
+    def one(maxctes, maxsteps, workers):
+        cfg = os.path.join(SPEC, f"SortMC_{os.getpid()}_{maxctes}_{maxsteps}.cfg")
+        open(cfg, "w").write(f"SPECIFICATION Spec\nCONSTANTS\n  RepairedSI = TRUE\n  MaxCtes = {maxctes}\n  MaxSteps = {maxsteps}\nINVARIANT MachineMeetsMeaning\nCHECK_DEADLOCK FALSE\n")
+        try:
+            return tlc("SortMC", os.path.basename(cfg), workers=workers, xmx="12g", timeout=3 * 3600)
+        finally:
+            os.remove(cfg)
+    b = (1, 3) if tier == "quick" else (2, 3)
+    out, info = one(b[0], b[1], 6 if tier == "quick" else 12)
+    res = {"bound": f"<= {b[0]} CTE(s) + main relation, <= {b[1]} transforms in all", "states": info.get("distinct"), "transitions": info.get("generated"),
+           "invariant": "MachineMeetsMeaning", "holds": info["no_error"], "wall_s": info["wall_s"]}
+    if not info["no_error"]:
+        res["error_text"] = info.get("error_text", out[-3000:])
+        return res
+    out2, info2 = tlc("SortMC", "SortMC_unrepaired.cfg", workers=4)
+    if info2["no_error"] or "MachineMeetsMeaning is violated" not in out2 or "sort-not-redirected" not in out2:
+        raise ToolError("SortMC on the machine as found (before the F113 repair) no longer finds the CTE read twice whose carried sort column is redirected for one instance only: the model has gone vacuous")
+    res["unrepaired_machine_violates"] = "MachineMeetsMeaning (sort-not-redirected)"
+    return res
+
 # ------------------------------------------------------------------------------------------------------------------
 # abstract pipeline (records of Backend.tla) -> RQ document for prqlc::rq_to_sql
 def _ref(c): return {"kind": {"ColumnRef": c}, "span": None}
@@ -119,7 +143,7 @@ def validate(trace_path):
         open(trace_path + ".tlc.out", "w").write(out)
         raise ToolError("BackendTrace did not consume the trace: " + info.get("error_text", out[-1200:])[:1500])
     c = tuples(out, "COUNTS")[-1]
-    return {"rejects": tuples(out, "REJECT"), "drift": tuples(out, "DRIFT"), "splits": c[1], "selects": c[2], "pres": c[5], "states": info.get("distinct", 0)}
+    return {"rejects": tuples(out, "REJECT"), "drift": tuples(out, "DRIFT"), "splits": c[1], "selects": c[2], "pres": c[5], "posts": c[6] if len(c) > 6 else 0, "states": info.get("distinct", 0)}
 
 def run(d, srcs, dialects="all", nsh=8, tag="be"):
     """srcs: [{"id", "src"} | {"id", "rq"}].  -> {"rejects": [...], "drift": [...], counters}"""
@@ -139,7 +163,7 @@ def run(d, srcs, dialects="all", nsh=8, tag="be"):
         return v
     with ThreadPoolExecutor(max_workers=min(8, len(shards) or 1)) as ex:
         results = list(ex.map(one, range(len(shards))))
-    res = {"rejects": [], "drift": [], "splits": 0, "selects": 0, "pres": 0, "states": 0, "compiled": 0, "errors": 0, "panics": 0}
+    res = {"rejects": [], "drift": [], "splits": 0, "selects": 0, "pres": 0, "posts": 0, "states": 0, "compiled": 0, "errors": 0, "panics": 0}
     import re
     for v in results:
         evs = None
@@ -159,7 +183,7 @@ def run(d, srcs, dialects="all", nsh=8, tag="be"):
                     rec["verdict"] = t[3]
                     rec["pair"] = [int(re.sub(r"\D", "", str(x)) or 0) for x in t[5:7]] if len(t) > 6 else None
                 res[kind].append(rec)
-        for k in ("splits", "selects", "pres", "states"):
+        for k in ("splits", "selects", "pres", "posts", "states"):
             res[k] += v[k]
         m = re.search(r"(\d+) compiled, (\d+) errors, (\d+) panics", v["pv"])
         if m:
@@ -172,6 +196,10 @@ def describe(rec):
     if e["ev"] == "Pre":
         f = lambda t: (t["cx"] if t["k"] == "Compute" else t["k"]) + ("/" + ",".join(map(str, t["part"])) if t["k"] in ("Take", "DistinctOn") and t["part"] else "")
         return " ".join(f(t) for t in e["input"]) + " => " + " ".join(f(t) for t in e["output"])
+    if e["ev"] == "Post":
+        f = lambda t: t["k"] + ("[" + ",".join(("-" if k["desc"] else "") + str(k["col"]) for k in t["keys"]) + "]" if t["k"] in ("Sort", "Take") else "") + (f"({t['src']})" if t["k"] in ("From", "Join") and t["src"] >= 0 else "")
+        q = lambda x: " ; ".join(f"cte{c['tid']}: " + " | ".join(" ".join(f(t) for t in p) for p in c["pipes"]) for c in x["ctes"]) + " ; main: " + " ".join(f(t) for t in x["main"])
+        return q(e["before"]) + "  =>  " + q(e["after"])
     if e["ev"] == "Split":
         ks = [(t["cx"] if t["k"] == "Compute" else t["k"]) + ("*" if t.get("sorted") else "") for t in e["atomic"]]
         return " ".join(ks)
@@ -186,7 +214,10 @@ def selftest(d):
 SELF_SRCS = [{"id": "s1", "src": "from t | select {a, b} | sort a | take 3 | filter b > 1 | derive {w = sum b} | group a (aggregate {s = sum w}) | filter s > 0 | sort s | take 2..3"},
             {"id": "s2", "src": "from t | select {a, b} | derive {w = sum b} | group a (aggregate {s = sum w})"},
             {"id": "s3", "src": "from t | select {a, b} | group {a, b} (take 1) | filter b > 1"},
-            {"id": "s4", "src": "from t | filter a > 1 | derive {c = a + 1} | select {c}"}]
+            {"id": "s4", "src": "from t | filter a > 1 | derive {c = a + 1} | select {c}"},
+            {"id": "s5", "src": "let x = (from t | sort {(a + b)} | select {k, a})\nfrom x | join y = x (==k) | take 5"},
+            {"id": "s6", "src": "from t | sort {-b} | take 5 | filter a > 1 | sort k | take 2"},
+            {"id": "s7", "src": "from t | sort a | select {k, a}"}]
 
 def _selftest(d, ip, tp):
     pv(["backend", ip, tp, "sqlite"])
@@ -235,6 +266,36 @@ def _selftest(d, ip, tp):
     plant("pre-moved", m); want["pre-moved"] = "preprocess-compute-moved"
     m = copy.deepcopy(pc); del m["output"][1]
     plant("pre-lost", m); want["pre-lost"] = "preprocess-kind-changed"
+    # (6) sort inference (spec/SortInfer.tla): the order next to a LIMIT inside a CTE reversed; the final order reversed; a
+    #     carried sort column left un-redirected; a sort key of a relation instance that is not in this SELECT
+    def post_of(sid):
+        i = next(i for i, e in enumerate(evs) if e["ev"] == "Reset" and e["id"] == sid)
+        return next(e for e in evs[i + 1:] if e["ev"] == "Post")
+    def flip(pipe):
+        for t in pipe:
+            if t["k"] == "Sort":
+                for k in t["keys"]:
+                    k["desc"] = not k["desc"]
+    m = copy.deepcopy(post_of("s6")); c = next(c for c in m["after"]["ctes"] if any(t["k"] == "Take" for p in c["pipes"] for t in p)); flip(c["pipes"][0])
+    plant("si-take", m); want["si-take"] = "sortinfer-take-order"
+    m = copy.deepcopy(post_of("s7")); flip(m["after"]["main"])
+    plant("si-final", m); want["si-final"] = "sortinfer-final-order"
+    p5 = post_of("s5")
+    main_from = next(t for t in p5["after"]["main"] if t["k"] == "From")
+    red = next(r for r in p5["R"] if r["riid"] == main_from["riid"] and any(k["col"] == r["tgt"] for t in p5["after"]["main"] if t["k"] == "Sort" for k in t["keys"]))
+    def rekey(pipe, old, new):
+        for t in pipe:
+            if t["k"] == "Sort":
+                for k in t["keys"]:
+                    if k["col"] == old:
+                        k["col"] = new
+    m = copy.deepcopy(p5); rekey(m["after"]["main"], red["tgt"], red["src"])
+    plant("si-redirect", m); want["si-redirect"] = "sortinfer-sort-not-redirected"
+    main_riids = {t["riid"] for t in p5["after"]["main"] if t["k"] in ("From", "Join")}
+    selected = {c for cte in p5["after"]["ctes"] for pp_ in cte["pipes"] for t in pp_ if t["k"] == "Select" for c in t["cols"]}
+    inner = next(x["cid"] for x in p5["D"] if x["riid"] not in main_riids and x["cid"] not in selected)   # a column of an instance inside a CTE that no CTE selects
+    m = copy.deepcopy(p5); rekey(m["after"]["main"], red["tgt"], inner)
+    plant("si-scope", m); want["si-scope"] = "sortinfer-sort-out-of-scope"
     planted.append({"ev": "End"})
     pp = os.path.join(d, "self.planted.ndjson"); write_ndjson(pp, planted)
     got = {t[1]: t[3] for t in validate(pp)["rejects"]}
